@@ -312,4 +312,47 @@ Section Value.
     end.
   Fixpoint sum_creation_order (l : list scomp) : list scomp :=
     match l with [] => [] | k :: r => sc_insert k (sum_creation_order r) end.
+
+  (* ================= consumers of the metric =================
+     harmonic restraint (colvarbias_restraint_harmonic::restraint_potential / restraint_force): energy 0.5 k / w^2 * dist2(x, centre),
+     force -0.5 k / w^2 * dist2_lgrad(x, centre), both through colvar::dist2 / dist2_lgrad of the variable (any kind) *)
+  Definition cval_scale (s : T) (v : cval) : cval :=
+    match v with
+    | VS x => VS (s * x)
+    | V3 x => V3 (v3scale s x)
+    | VQ q => VQ (qscale s q)
+    | VL l => VL (map (fun a => s * a) l)
+    end.
+  Definition hr_energy (k w : T) (kind : comp_kind) (x c : cval) : option T :=
+    match comp_dist2 kind x c with Some d => Some (nhalf O * k / (w * w) * d) | None => None end.
+  Definition hr_force (k w : T) (kind : comp_kind) (x c : cval) : option cval :=
+    match comp_lgrad kind x c with Some g => Some (cval_scale (nneg O (nhalf O) * k / (w * w)) g) | None => None end.
+  (* harmonic walls on a scalar variable (colvarbias_restraint_harmonic_walls::colvar_distance / restraint_potential /
+     restraint_force): for a periodic variable the closer wall (by the variable's distance) is the one that may act *)
+  Definition hw_distance (kind : comp_kind) (lo up x : T) : T :=
+    match kind with
+    | KPeriodic P _ =>
+      if nltb O (per_dist2 P x lo) (per_dist2 P x up)
+      then (let g := per_grad P x lo in if nltb O g zero then nhalf O * g else zero)
+      else (let g := per_grad P x up in if nltb O zero g then nhalf O * g else zero)
+    | _ =>
+      let g := sc_grad x lo in
+      if nltb O g zero then nhalf O * g
+      else let g2 := sc_grad x up in if nltb O zero g2 then nhalf O * g2 else zero
+    end.
+  Definition hw_energy (k w lk uk : T) (kind : comp_kind) (lo up x : T) : T :=
+    let d := hw_distance kind lo up x in
+    let scale := if nltb O zero d then uk else lk in
+    nhalf O * k * scale / (w * w) * d * d.
+  Definition hw_force (k w lk uk : T) (kind : comp_kind) (lo up x : T) : T :=
+    let d := hw_distance kind lo up x in
+    let scale := if nltb O zero d then uk else lk in
+    nneg O k * scale / (w * w) * d.
+  (* finite-difference velocity (colvar::fdiff_velocity): half the left gradient of the distance between the new and the old value,
+     over the time step: the closest-image displacement for periodic variables, the tangent displacement on the manifolds *)
+  Definition fd_velocity (dt : T) (kind : comp_kind) (xold xnew : cval) : option cval :=
+    match comp_lgrad kind xnew xold with
+    | Some g => Some (cval_scale ((if nltb O zero dt then one / dt else one) * nhalf O) g)
+    | None => None
+    end.
 End Value.
